@@ -2,6 +2,7 @@
 \* <= 4 characters over {d, e, b, g, u, D, 3, space, tab, é}; cases: all strings of <= 3 characters over
 \* 17 character classes, <= 4 over the level alphabet, <= 5 over the path alphabet, near-misses of 25
 \* well-formed texts, level words x prefixes x cases x suffixes, 11 boundary years x month ends x 11 precisions.
+\* byte-length-preserving multi-byte substitutions (14 non-ASCII representatives incl. Latin-1 high-bit aliases) of 12 fixed-width texts.
 SPECIFICATION Spec
 CONSTANTS
     PathAlgo = "repaired"
